@@ -210,6 +210,7 @@ func (r *Report) finish(writeEvidence bool) int {
 		}
 		return nil
 	}
+	os.RemoveAll(filepath.Join(r.verif, "out", "replay", r.prop))
 	// bounded stand-ins
 	r.runBounded()
 	total, discharged, violations, knownN := 0, 0, 0, 0
